@@ -857,7 +857,7 @@ def c05(res):
     n = size(res, 500, 3000)
     for k in range(n):
         stratum = rng.choice(["typical", "wide", "mismatch", "mismatch", "corners", "equalsize"])
-        g = gen_game(rng, stratum=stratum, options=rng.random() < 0.3)
+        g = gen_game(rng, stratum=stratum, options=True)
         res.case(g)
         describe(res, g)
         c05_sole(res, g, games)
@@ -1411,8 +1411,16 @@ def c15(res):
     rng = random.Random(res.seed)
     c15_positional_constructor(res, rng)
     games = []
-    for _ in range(size(res, 60, 400)):
-        g = gen_game(rng, stratum=rng.choice(["typical", "wide", "mismatch"]), options=True)
+    for i_ in range(size(res, 60, 400)):
+        # every model with every way of giving the outcome (ranks, scores, omitted), in turn — not left to chance
+        g = gen_game(rng, kind=KINDS[i_ % 5], stratum=rng.choice(["typical", "wide", "mismatch"]), options=True)
+        form = "RSN"[(i_ // 5) % 3]
+        if form == "N":
+            g["oc"] = ("N", None)
+        elif g["oc"][0] == "N":
+            g["oc"] = (form, encode_ranks(rng, random_weak_order(rng, len(g["teams"]))))
+        else:
+            g["oc"] = (form, g["oc"][1])
         res.case(g)
         describe(res, g)
         c15_one(res, g)
